@@ -5155,7 +5155,13 @@ fn evaluate_scalar_func(
                 .iter()
                 .zip(right.iter())
                 .map(|(l, r)| match (l, r) {
-                    (Some(lv), Some(rv)) => Some(lv << (rv as u32)),
+                    // a count of 64 or more shifts every bit out; a negative count is
+                    // taken modulo 64 (the hardware / Java rule) instead of overflowing
+                    (Some(lv), Some(rv)) => Some(if rv >= 64 {
+                        0
+                    } else {
+                        lv.wrapping_shl(rv as u32)
+                    }),
                     _ => None,
                 })
                 .collect();
@@ -5185,7 +5191,11 @@ fn evaluate_scalar_func(
                 .iter()
                 .zip(right.iter())
                 .map(|(l, r)| match (l, r) {
-                    (Some(lv), Some(rv)) => Some((lv as u64 >> (rv as u32)) as i64),
+                    (Some(lv), Some(rv)) => Some(if rv >= 64 {
+                        0
+                    } else {
+                        (lv as u64).wrapping_shr(rv as u32) as i64
+                    }),
                     _ => None,
                 })
                 .collect();
@@ -5219,7 +5229,16 @@ fn evaluate_scalar_func(
                 .iter()
                 .zip(right.iter())
                 .map(|(l, r)| match (l, r) {
-                    (Some(lv), Some(rv)) => Some(lv >> (rv as u32)),
+                    // 64 or more: only the sign is left
+                    (Some(lv), Some(rv)) => Some(if rv >= 64 {
+                        if lv < 0 {
+                            -1
+                        } else {
+                            0
+                        }
+                    } else {
+                        lv.wrapping_shr(rv as u32)
+                    }),
                     _ => None,
                 })
                 .collect();
